@@ -6,6 +6,11 @@
 //!   rd a|s <text>                  -> what brush's `eval` makes of `set -- <text>` / `zzr=<text>`
 //!   e2e <form> <payload…>          -> `<esc text> %; <reread> [%; <reread>]`  (text printed by a shell holding the
 //!                                     payload, then re-read by `eval` in a fresh shell)
+//!   sh <ctx> <spec>…               -> shadowing contexts: `<form> %; <esc text|ABSENT> %; <reread>…` joined by ` %| `.
+//!                                     ctx f1 (a function's local hides a global), f2 (the callee's local hides the
+//!                                     caller's local, which hides a global), tmp (`zzv=… eval` hides a global).
+//!                                     spec = `<s|a|A> <attrs|-> <n> <v1>…<vn>`, innermost first; every printer runs
+//!                                     where the innermost binding is the visible one.
 //! Re-read results:  `W <n> <w1> …` (words), `V <attrs|-> <s|a|A|u> <k v>…` (variable), `S <body>`, `NONE`, `ERR`.
 use std::collections::BTreeMap;
 use brush_core::escape::{self, QuoteMode};
@@ -191,7 +196,7 @@ async fn e2e(f: &[String]) -> String {
                 "A" => capture(&mut a, "printf '%s' \"${zzv@A}\" > \"$zzO\"").await,
                 "dp" => capture(&mut a, "declare -p zzv > \"$zzO\"").await.map(strip_nl),
                 "set" => capture(&mut a, "set > \"$zzO\"").await.and_then(|s| between(&s, "zzv=", "zzw=END")),
-                _ => capture(&mut a, "export -p > \"$zzO\"").await.and_then(|s| between(&s, "declare -x zzv=", "declare -x zzw=")),
+                _ => capture(&mut a, "export -p > \"$zzO\"").await.and_then(|s| line_of(&s, declares_zzv, "declare -")),
             };
             let Some(t) = t else { return "NOTEXT".to_string() };
             format!("{} %; {}", esc(&t), read_stmt_var(&t, "zzv").await)
@@ -254,6 +259,216 @@ async fn e2e(f: &[String]) -> String {
     }
 }
 
+struct Spec {
+    kind: char,
+    attrs: String,
+    vals: Vec<String>,
+}
+
+fn parse_specs(f: &[String]) -> Option<Vec<Spec>> {
+    let mut out = vec![];
+    let mut i = 0;
+    while i < f.len() {
+        if i + 3 > f.len() {
+            return None;
+        }
+        let kind = f[i].chars().next()?;
+        let attrs = if f[i + 1] == "-" { String::new() } else { f[i + 1].clone() };
+        let n: usize = f[i + 2].parse().ok()?;
+        if i + 3 + n > f.len() {
+            return None;
+        }
+        out.push(Spec { kind, attrs, vals: f[i + 3..i + 3 + n].to_vec() });
+        i += 3 + n;
+    }
+    Some(out)
+}
+
+fn spec_value(sp: &Spec) -> ShellValue {
+    match sp.kind {
+        'a' => ShellValue::IndexedArray(sp.vals.iter().enumerate().map(|(i, v)| (i as u64, v.clone())).collect()),
+        'A' => {
+            let mut m = BTreeMap::new();
+            for kv in sp.vals.chunks(2) {
+                if kv.len() == 2 {
+                    m.insert(kv[0].clone(), kv[1].clone());
+                }
+            }
+            ShellValue::AssociativeArray(m)
+        }
+        _ => ShellValue::String(sp.vals.first().cloned().unwrap_or_default()),
+    }
+}
+
+/// `local [-attrs] zzv=…` taking the values from the globals `<pfx>0`, `<pfx>1`, …
+fn local_decl(sp: &Spec, pfx: &str) -> String {
+    let mut flags = sp.attrs.clone();
+    if sp.kind == 'a' {
+        flags.insert(0, 'a');
+    }
+    let flags = if flags.is_empty() { String::new() } else { format!("-{flags} ") };
+    if sp.kind == 'a' {
+        let elems: Vec<String> = (0..sp.vals.len()).map(|i| format!("\"${pfx}{i}\"")).collect();
+        format!("local {flags}zzv=({})", elems.join(" "))
+    } else {
+        format!("local {flags}zzv=${pfx}0")
+    }
+}
+
+fn line_of(all: &str, prefix_ok: impl Fn(&str) -> bool, stop: &str) -> Option<String> {
+    // the entry of zzv in a listing: from the line that declares zzv to the next entry (`stop`) or the end
+    let mut start = None;
+    let mut pos = 0;
+    for l in all.split_inclusive('\n') {
+        if start.is_none() {
+            if prefix_ok(l) {
+                start = Some(pos);
+            }
+        } else if l.starts_with(stop) {
+            let st = start.unwrap();
+            return Some(all[st..pos].trim_end_matches('\n').to_string());
+        }
+        pos += l.len();
+    }
+    start.map(|st| all[st..].trim_end_matches('\n').to_string())
+}
+
+fn declares_zzv(l: &str) -> bool {
+    // `declare -<flags> zzv=` / `declare -<flags> zzv` (end of line)
+    let Some(r) = l.strip_prefix("declare -") else { return false };
+    let Some(sp) = r.find(' ') else { return false };
+    let r = &r[sp + 1..];
+    r.starts_with("zzv=") || r == "zzv\n" || r == "zzv"
+}
+
+async fn shadow(f: &[String]) -> String {
+    let ctx = f[0].as_str();
+    let Some(specs) = parse_specs(&f[1..]) else { return "bad-spec".to_string() };
+    let want = if ctx == "f2" { 3 } else { 2 };
+    if specs.len() != want {
+        return "bad-spec".to_string();
+    }
+    let inner = &specs[0];
+    let outer = &specs[specs.len() - 1];
+    let mut a = fresh().await;
+    // the global that is hidden, with its own value, kind and attributes; and the sentinel after it
+    let mut var = ShellVariable::new(spec_value(outer));
+    apply_attrs(&mut var, &outer.attrs);
+    a.env_mut().set_global("zzv", var).unwrap();
+    let mut w = ShellVariable::new(ShellValue::String("END".to_string()));
+    w.export();
+    a.env_mut().set_global("zzw", w).unwrap();
+    for (li, sp) in specs[..specs.len() - 1].iter().enumerate() {
+        for (i, v) in sp.vals.iter().enumerate() {
+            set_str(&mut a, &format!("zzL{li}x{i}"), v);
+        }
+    }
+    let scalar = inner.kind == 's';
+    if scalar {
+        a.aliases_mut().insert("zzal".to_string(), inner.vals[0].clone());
+        a.traps_mut().register_handler(usr1(), inner.vals[0].clone(), brush_core::SourceInfo::from("vh"));
+    }
+    let base = out_path();
+    let forms: Vec<&str> = if scalar {
+        let mut v = vec!["pq", "Q", "A", "dp", "dpl", "set", "ex", "xt", "xs", "al", "tr"];
+        if ctx != "tmp" {
+            v.push("lp");
+        }
+        v
+    } else {
+        vec!["Qa", "Aa", "dpa", "dpl", "seta", "lp"]
+    };
+    for fm in &forms {
+        let _ = std::fs::remove_file(format!("{base}.{fm}"));
+    }
+    set_str(&mut a, "zzO", &base);
+    let mut body = String::new();
+    for fm in &forms {
+        body.push_str(match *fm {
+            "pq" => "printf %q \"$zzv\" > \"$zzO.pq\"\n",
+            "Q" => "printf '%s' \"${zzv@Q}\" > \"$zzO.Q\"\n",
+            "A" => "printf '%s' \"${zzv@A}\" > \"$zzO.A\"\n",
+            "Qa" => "printf '%s' \"${zzv[*]@Q}\" > \"$zzO.Qa\"\n",
+            "Aa" => "printf '%s' \"${zzv[@]@A}\" > \"$zzO.Aa\"\n",
+            "dp" => "declare -p zzv > \"$zzO.dp\"\n",
+            "dpa" => "declare -p zzv > \"$zzO.dpa\"\n",
+            "dpl" => "declare -p > \"$zzO.dpl\"\n",
+            "set" => "set > \"$zzO.set\"\n",
+            "seta" => "set > \"$zzO.seta\"\n",
+            "ex" => "export -p > \"$zzO.ex\"\n",
+            "xt" => "{ set -x; : \"$zzv\"; set +x; } 2> \"$zzO.xt\"\n",
+            "xs" => "{ set -x; zzt=$zzv; set +x; } 2> \"$zzO.xs\"\n",
+            "al" => "alias zzal > \"$zzO.al\"\n",
+            "tr" => "trap -p > \"$zzO.tr\"\n",
+            "lp" => "local -p > \"$zzO.lp\"\n",
+            _ => "",
+        });
+    }
+    let script = match ctx {
+        "f1" => format!("zzf() {{\n{}\n{body}}}\nzzf", local_decl(inner, "zzL0x")),
+        "f2" => format!(
+            "zzg() {{\n{}\nzzf\n}}\nzzf() {{\n{}\n{body}}}\nzzg",
+            local_decl(&specs[1], "zzL1x"),
+            local_decl(inner, "zzL0x")
+        ),
+        "tmp" => {
+            set_str(&mut a, "zzB", &body);
+            "zzv=$zzL0x0 eval \"$zzB\"".to_string()
+        }
+        _ => return "bad-ctx".to_string(),
+    };
+    let _ = run(&mut a, &script).await;
+    let mut segs = vec![];
+    for fm in &forms {
+        let raw = std::fs::read(format!("{base}.{fm}")).ok().map(|b| String::from_utf8_lossy(&b).into_owned());
+        let _ = std::fs::remove_file(format!("{base}.{fm}"));
+        let Some(raw) = raw else {
+            segs.push(format!("{fm} %; NOFILE"));
+            continue;
+        };
+        let text: Option<String> = match *fm {
+            "pq" | "Q" | "A" | "Qa" | "Aa" => Some(raw),
+            "dp" | "dpa" | "al" | "tr" => Some(strip_nl(raw)),
+            "dpl" | "lp" => line_of(&raw, declares_zzv, "declare -"),
+            "ex" => line_of(&raw, declares_zzv, "declare -"),
+            "set" | "seta" => between(&raw, "zzv=", "zzw=END"),
+            "xt" => between(&raw, "+ : ", "+ set +x").map(|l| l["+ : ".len()..].to_string())
+                .or_else(|| between(&raw, "++ : ", "++ set +x").map(|l| l["++ : ".len()..].to_string()))
+                .or_else(|| between(&raw, "+++ : ", "+++ set +x").map(|l| l["+++ : ".len()..].to_string())),
+            "xs" => between(&raw, "+ zzt=", "+ set +x").map(|l| l["+ ".len()..].to_string())
+                .or_else(|| between(&raw, "++ zzt=", "++ set +x").map(|l| l["++ ".len()..].to_string()))
+                .or_else(|| between(&raw, "+++ zzt=", "+++ set +x").map(|l| l["+++ ".len()..].to_string())),
+            _ => None,
+        };
+        let Some(t) = text else {
+            segs.push(format!("{fm} %; ABSENT"));
+            continue;
+        };
+        let rr = match *fm {
+            "pq" | "Q" | "xt" => format!("{} %; {}", read_args(&t).await, read_assign(&t).await),
+            "Qa" => read_args(&t).await,
+            "xs" => read_stmt_var(&t, "zzt").await,
+            "al" => {
+                let sh = eval_fresh(&t).await;
+                match sh.aliases().get("zzal") {
+                    Some(b) => format!("S {}", esc(b)),
+                    None => "NONE".to_string(),
+                }
+            }
+            "tr" => {
+                let sh = eval_fresh(&t).await;
+                match sh.traps().get_handler(usr1()) {
+                    Some(h) => format!("S {}", esc(&h.command)),
+                    None => "NONE".to_string(),
+                }
+            }
+            _ => read_stmt_var(&t, "zzv").await,
+        };
+        segs.push(format!("{fm} %; {} %; {rr}", esc(&t)));
+    }
+    segs.join(" %| ")
+}
+
 async fn handle(line: &str) -> String {
     let f = fields(line);
     if f.is_empty() {
@@ -286,6 +501,7 @@ async fn handle(line: &str) -> String {
             if f[1] == "a" { read_args(&f[2]).await } else { read_assign(&f[2]).await }
         }
         "e2e" if f.len() >= 3 => e2e(&f[1..]).await,
+        "sh" if f.len() >= 5 => shadow(&f[1..]).await,
         _ => "bad-request".to_string(),
     }
 }
